@@ -150,8 +150,20 @@ impl<'a, S: MlDsa> World<'a, S> {
             let after = count(p);
             (size, before, after)
         }
-        let (kind, (size, before, after)) = if let Some(k) = self.pks.remove(&h) { ("pk", observe(k)) } else { ("sk", observe(self.sks.remove(&h).expect("handle"))) };
-        self.emit(json!({"ev": "Drop", "h": h, "kind": kind, "set": S::SET, "size": size, "nonzero_before": before, "nonzero_after": after}), None);
+        /// A second copy of the key lives in an ordinary Box and is dropped the ordinary way (destructor, then free); its
+        /// storage is read back AFTER the free.  A wipe made of plain stores is a dead store to the optimiser once the free
+        /// is in sight and is removed; the volatile wipe of `zeroize` is not.  (The allocator may write a few list
+        /// pointers into the freed block: the judge allows 64 non-zero bytes.)
+        fn observe_freed<T>(k: T) -> usize {
+            let size = std::mem::size_of::<T>();
+            let b = Box::new(k);
+            let p = std::hint::black_box(&*b as *const T as *const u8);
+            drop(b);
+            (0..size).filter(|&i| unsafe { std::ptr::read_volatile(p.add(i)) } != 0).count()
+        }
+        let (kind, (size, before, after), freed) = if let Some(k) = self.pks.remove(&h) { let f = observe_freed(k.clone()); ("pk", observe(k), f) }
+            else { let k = self.sks.remove(&h).expect("handle"); let f = observe_freed(k.clone()); ("sk", observe(k), f) };
+        self.emit(json!({"ev": "Drop", "h": h, "kind": kind, "set": S::SET, "size": size, "nonzero_before": before, "nonzero_after": after, "nonzero_after_free": freed}), None);
     }
     /// every single-bit flip of one component of a verifying tuple
     pub fn flip_sweep(&mut self, hp: i64, m: &[u8], ctx: &[u8], mode: &str, sig: &[u8], field: &str) {
@@ -729,6 +741,54 @@ pub fn replay_behaviours<S: MlDsa>(seed: u64, file: &str, out: &mut Out) -> usiz
     n
 }
 
+#[repr(C)]
+struct SockFilter { code: u16, jt: u8, jf: u8, k: u32 }
+#[repr(C)]
+struct SockFprog { len: u16, filter: *const SockFilter }
+extern "C" { fn prctl(option: i32, ...) -> i32; }
+/// From now on getrandom(2) fails with EIO in this thread (seccomp filter; x86_64 Linux).  Returns false where the
+/// kernel or the sandbox does not allow it.  (Construction taken from the demonstration of the seeded change XC-4.)
+#[cfg(all(target_os = "linux", target_arch = "x86_64"))]
+fn break_os_rng() -> bool {
+    const SYS_GETRANDOM: u32 = 318;
+    static FILTER: [SockFilter; 4] = [
+        SockFilter { code: 0x20, jt: 0, jf: 0, k: 0 },               // A <- seccomp_data.nr
+        SockFilter { code: 0x15, jt: 0, jf: 1, k: SYS_GETRANDOM },   // if A != getrandom skip one
+        SockFilter { code: 0x06, jt: 0, jf: 0, k: 0x0005_0000 | 5 }, // return ERRNO(EIO)
+        SockFilter { code: 0x06, jt: 0, jf: 0, k: 0x7fff_0000 },     // return ALLOW
+    ];
+    let prog = SockFprog { len: 4, filter: FILTER.as_ptr() };
+    unsafe { prctl(38, 1usize, 0usize, 0usize, 0usize) == 0 && prctl(22, 2usize, &prog as *const SockFprog) == 0 }
+}
+#[cfg(not(all(target_os = "linux", target_arch = "x86_64")))]
+fn break_os_rng() -> bool { false }
+
+/// C12: the OS-RNG convenience functions under a FAILING operating-system generator (the only generator the caller
+/// cannot replace): each must return an error - no panic, no key, no signature.  Own process: the filter cannot be removed.
+pub fn osrngfail(dir: &str) {
+    fn one<S: MlDsa>(out: &mut Out, healthy: bool) {
+        let (_pk, sk) = S::keygen_seed(&[S::SET as u8; 32]);
+        let calls: Vec<(&str, Box<dyn Fn() -> bool>)> = vec![
+            ("try_keygen", Box::new(|| S::keygen_os().is_ok())),
+            ("try_sign", Box::new({ let sk = sk.clone(); move || S::sign_os(&sk, b"os", b"", "pure").is_ok() })),
+            ("try_hash_sign", Box::new({ let sk = sk.clone(); move || S::sign_os(&sk, b"os", b"", "SHA256").is_ok() })),
+        ];
+        for (entry, f) in calls {
+            let mut e = json!({"ev": "OsRng", "entry": entry, "set": S::SET, "healthy": healthy});
+            match guarded(|| f()) { Ok(ok) => { e["ok"] = json!(ok); } Err((loc, msg)) => { e["panic"] = json!(format!("{}: {}", loc, msg)); } }
+            out.ev(e);
+        }
+    }
+    let mut out = Out::create(&format!("{}/api_osrngfail_0.ndjson", dir));
+    one::<Set44>(&mut out, true); one::<Set65>(&mut out, true); one::<Set87>(&mut out, true);
+    if break_os_rng() {
+        one::<Set44>(&mut out, false); one::<Set65>(&mut out, false); one::<Set87>(&mut out, false);
+    } else {
+        out.ev(json!({"ev": "Note", "what": "seccomp filter not available here: the failing OS generator was not simulated"}));
+    }
+    println!("api scenario=osrngfail events={}", out.finish());
+}
+
 /// Interleaved use of ALL THREE parameter sets in one process, with key material shared between them where the formats
 /// allow it (the same rho in public keys of different sets; the same seed): whatever one parameter set did before must not
 /// change what another one computes.  Each set's calls go to that set's own trace (three Worlds, one process).
@@ -788,6 +848,7 @@ pub fn run(a: &Args) {
     let seed = a.u("seed", 1);
     let sc = a.s("scenario", "honest");
     if sc == "crossset" { crossset(seed, a.u("rounds", 3) as usize, &a.s("out", "/verif/work/api")); return; }
+    if sc == "osrngfail" { osrngfail(&a.s("out", "/verif/work/api")); return; }
     for set in a.sets() {
         let mut out = Out::create(&format!("{}/api_{}_{}.ndjson", a.s("out", "/verif/work/api"), sc, set));
         match sc.as_str() {
